@@ -665,4 +665,346 @@ theorem bootstrap_ok (user : List (String × Path × Val)) (mgrs : List (String 
   · rw [m3, m2, m1]; simp
   · rw [c3, c2, c1]; simp
 
+/-! ### Refused operations: what they leave behind (lesson 16) -/
+
+/-- the all-or-nothing `updateAll` is the partial one with the state forgotten on a refusal -/
+theorem updateAllK_agree (l : String) : ∀ (kvs : Defaults) (c : Config),
+    c.updateAll l kvs = match c.updateAllK l kvs with
+      | (c', none) => .ok c'
+      | (_, some e) => .error e
+  | [], c => by simp [Config.updateAll, Config.updateAllK, pure, Except.pure]
+  | kv :: kvs, c => by
+    have ih := updateAllK_agree l kvs
+    unfold Config.updateAll at ih ⊢
+    rw [List.foldlM_cons]
+    cases h : c.update l kv.1 kv.2 with
+    | ok c' => simp only [Config.updateAllK, h, bind, Except.bind]; exact ih c'
+    | error e => simp [Config.updateAllK, h, bind, Except.bind]
+
+/-- what a (possibly refused) `update` of a dictionary leaves behind: a prefix of the dictionary, at the layer asked for -/
+theorem updateAllK_spec (l : String) : ∀ (kvs : Defaults) (c : Config),
+    ∃ k, (c.updateAllK l kvs).1.entries = c.entries ++ mkEntries l (kvs.take k) ∧
+      (c.updateAllK l kvs).1.frozen = c.frozen ∧ (c.WF → (c.updateAllK l kvs).1.WF) ∧
+      ((c.updateAllK l kvs).2 = none → k = kvs.length)
+  | [], c => ⟨0, by simp [Config.updateAllK, mkEntries]⟩
+  | kv :: kvs, c => by
+    cases h : c.update l kv.1 kv.2 with
+    | error e => exact ⟨0, by simp [Config.updateAllK, h, mkEntries]⟩
+    | ok c' =>
+      obtain ⟨k, he, hf, hw, hk⟩ := updateAllK_spec l kvs c'
+      have hwf1 := update_wf c c' l kv.1 kv.2 h
+      obtain ⟨_, _, _, rfl, _⟩ := (update_ok c c' l kv.1 kv.2).mp h
+      refine ⟨k + 1, ?_, ?_, ?_, ?_⟩
+      · simp only [Config.updateAllK, h]; rw [he]; simp [mkEntries]
+      · simp only [Config.updateAllK, h]; rw [hf]
+      · intro hwf; simp only [Config.updateAllK, h]; exact hw (hwf1 hwf)
+      · intro hn; simp only [Config.updateAllK, h] at hn; simp [hk hn]
+
+theorem mkEntries_take_prefix (l : String) (d : Defaults) (k : Nat) : mkEntries l (d.take k) <+: mkEntries l d := by
+  unfold mkEntries
+  rw [List.map_take]
+  exact List.take_prefix _ _
+
+theorem mkEntries_layer (l : String) (d : Defaults) : ∀ e ∈ mkEntries l d, e.layer = l := by
+  intro e he
+  simp only [mkEntries, List.mem_map] at he
+  obtain ⟨_, _, rfl⟩ := he
+  rfl
+
+theorem compEntries_layer (l : List Tree) : ∀ e ∈ compEntries l, e.layer = defaultsLayer := by
+  intro e he
+  simp only [compEntries, List.mem_flatMap] at he
+  obtain ⟨t, _, h⟩ := he
+  exact mkEntries_layer _ _ e h
+
+theorem registerOneK_agree (s : Sim) (t : Tree) :
+    registerOne s t = match registerOneK s t with
+      | (s', none) => .ok s'
+      | (_, some e) => .error e := by
+  unfold registerOne registerOneK applyDefaults applyDefaultsK
+  rw [updateAllK_agree]
+  rcases h : s.cfg.updateAllK defaultsLayer t.defaults with ⟨cfg, _ | e⟩
+  · simp only [bind, Except.bind]
+    cases h2 : OrderedSet.add s.components t.name <;> simp [pure, Except.pure]
+  · simp [bind, Except.bind]
+
+/-- one iteration of `add_components`, whatever its verdict: a prefix of the component's defaults is written at the
+defaults layer, the component is registered exactly when nothing was refused, nothing else changes -/
+theorem registerOneK_spec (s : Sim) (t : Tree) :
+    ∃ k, Grows s (registerOneK s t).1 (mkEntries defaultsLayer (t.defaults.take k)) ∧
+      (registerOneK s t).1.managers = s.managers ∧
+      (((registerOneK s t).2 = none ∧ k = t.defaults.length ∧ t.name ∉ s.components ∧
+          (registerOneK s t).1.components = s.components ++ [t.name]) ∨
+       ((registerOneK s t).2 ≠ none ∧ (registerOneK s t).1.components = s.components)) := by
+  obtain ⟨k, he, hf, hw, hk⟩ := updateAllK_spec defaultsLayer t.defaults s.cfg
+  unfold registerOneK applyDefaultsK
+  rcases h : s.cfg.updateAllK defaultsLayer t.defaults with ⟨cfg, _ | e⟩
+  · rw [h] at he hf hw hk
+    simp only at he hf hw hk
+    cases h2 : OrderedSet.add s.components t.name with
+    | ok cs =>
+      obtain ⟨hn, rfl⟩ := (add_ok _ _ _).mp h2
+      exact ⟨k, ⟨he, hf, rfl, rfl, rfl, rfl, hw⟩, rfl, Or.inl ⟨rfl, hk trivial, hn, rfl⟩⟩
+    | error e => exact ⟨k, ⟨he, hf, rfl, rfl, rfl, rfl, hw⟩, rfl, Or.inr ⟨by simp, rfl⟩⟩
+  · rw [h] at he hf hw
+    simp only at he hf hw
+    exact ⟨k, ⟨he, hf, rfl, rfl, rfl, rfl, hw⟩, rfl, Or.inr ⟨by simp, rfl⟩⟩
+
+theorem registerListK_agree : ∀ (l : List Tree) (s : Sim),
+    l.foldlM registerOne s = match registerListK s l none with
+      | (s', none) => .ok s'
+      | (_, some e) => .error e
+  | [], s => by simp [registerListK, pure, Except.pure]
+  | t :: l, s => by
+    rw [List.foldlM_cons, registerOneK_agree]
+    rcases h : registerOneK s t with ⟨s1, _ | e⟩
+    · simp only [registerListK, h, bind, Except.bind, Option.map_none]
+      simpa using registerListK_agree l s1
+    · simp [registerListK, h, bind, Except.bind]
+
+/-- the loop of `add_components`, whatever its verdict and whichever `configuration_defaults` raises: what is written is
+a PREFIX of the defaults of the flattened list (all at the defaults layer), what is registered is a prefix of its names -/
+theorem registerListK_spec : ∀ (l : List Tree) (s : Sim) (b : Option Nat),
+    ∃ added k, Grows s (registerListK s l b).1 added ∧ added <+: compEntries l ∧
+      (registerListK s l b).1.components = s.components ++ (l.take k).map Tree.name ∧
+      (s.components.Nodup → (registerListK s l b).1.components.Nodup) ∧
+      (registerListK s l b).1.managers = s.managers ∧
+      ((registerListK s l b).2 = none → k = l.length ∧ added = compEntries l)
+  | [], s, b => ⟨[], 0, by simp [registerListK, compEntries, Grows.refl]⟩
+  | t :: l, s, b => by
+    by_cases hb : b = some 0
+    · exact ⟨[], 0, by simp [registerListK, hb, Grows.refl]⟩
+    · obtain ⟨k1, hg, hm, hc⟩ := registerOneK_spec s t
+      rcases h : registerOneK s t with ⟨s1, _ | e⟩
+      · rw [h] at hg hm hc
+        simp only at hg hm hc
+        rcases hc with ⟨_, hk1, hn, hc⟩ | ⟨hne, _⟩
+        · obtain ⟨added, k, hg', hp, hc', hnd, hm', hfull⟩ := registerListK_spec l s1 (b.map (· - 1))
+          have hstep : registerListK s (t :: l) b = registerListK s1 l (b.map (· - 1)) := by
+            simp [registerListK, hb, h]
+          rw [hstep]
+          subst hk1
+          rw [List.take_length] at hg
+          refine ⟨mkEntries defaultsLayer t.defaults ++ added, k + 1, hg.trans hg', ?_, ?_, ?_, hm'.trans hm, ?_⟩
+          · have hcons : compEntries (t :: l) = mkEntries defaultsLayer t.defaults ++ compEntries l := by
+              simp [compEntries]
+            rw [hcons]; exact (List.prefix_append_right_inj _).mpr hp
+          · rw [hc', hc]; simp
+          · intro hs; apply hnd; rw [hc]; exact nodup_snoc _ _ hs hn
+          · intro hr
+            obtain ⟨hk, ha⟩ := hfull hr
+            exact ⟨by simp [hk], by simp [compEntries, ha]⟩
+        · exact absurd rfl hne
+      · rw [h] at hg hm hc
+        simp only at hg hm hc
+        have hstep : registerListK s (t :: l) b = (s1, some e) := by simp [registerListK, hb, h]
+        rw [hstep]
+        rcases hc with ⟨hr, _⟩ | ⟨_, hc⟩
+        · cases hr
+        · refine ⟨_, 0, hg, ?_, by simp [hc], fun hs => by rw [hc]; exact hs, hm, by simp⟩
+          simp only [compEntries, List.flatMap_cons]
+          exact (mkEntries_take_prefix _ _ _).trans (List.prefix_append _ _)
+
+theorem addComponentsK_agree (s : Sim) (ts : List Tree) :
+    addComponents s ts = match addComponentsK s ts .none with
+      | (s', none) => .ok s'
+      | (_, some e) => .error e := by
+  unfold addComponents addComponentsK
+  by_cases hs : s.started = true
+  · simp [hs]
+  · simp only [hs, Bool.false_eq_true, if_false, register, registerK]
+    exact registerListK_agree _ _
+
+/-- what ANY `add_components` call leaves behind, accepted or refused, whichever property of the user's raises -/
+theorem addComponentsK_spec (s : Sim) (ts : List Tree) (f : Fault) :
+    ∃ added k, Grows s (addComponentsK s ts f).1 added ∧ added <+: compEntries (flatten ts) ∧
+      (addComponentsK s ts f).1.components = s.components ++ ((flatten ts).take k).map Tree.name ∧
+      (s.components.Nodup → (addComponentsK s ts f).1.components.Nodup) ∧
+      (addComponentsK s ts f).1.managers = s.managers ∧
+      ((addComponentsK s ts f).2 = none → k = (flatten ts).length ∧ added = compEntries (flatten ts)) := by
+  unfold addComponentsK
+  by_cases hs : s.started = true
+  · exact ⟨[], 0, by simp [hs, Grows.refl]⟩
+  · simp only [hs, Bool.false_eq_true, if_false]
+    cases f with
+    | none => exact registerListK_spec _ _ _
+    | defs i => exact registerListK_spec _ _ _
+    | sub => exact ⟨[], 0, by simp [registerK, Grows.refl]⟩
+
+/-- a whole history of calls, the caller catching every refusal: only the defaults layer is written, components are
+only appended, the managers are untouched -/
+theorem addManyK_spec : ∀ (bs : List (List Tree × Fault)) (s : Sim),
+    ∃ added more, Grows s (addManyK s bs) added ∧ (∀ e ∈ added, e.layer = defaultsLayer) ∧
+      (addManyK s bs).components = s.components ++ more ∧
+      (s.components.Nodup → (addManyK s bs).components.Nodup) ∧ (addManyK s bs).managers = s.managers
+  | [], s => ⟨[], [], by simp [addManyK, Grows.refl]⟩
+  | b :: bs, s => by
+    obtain ⟨a1, k, hg, hp, hc, hn, hm, _⟩ := addComponentsK_spec s b.1 b.2
+    obtain ⟨a2, more, hg', hl, hc', hn', hm'⟩ := addManyK_spec bs (addComponentsK s b.1 b.2).1
+    have hstep : addManyK s (b :: bs) = addManyK (addComponentsK s b.1 b.2).1 bs := by simp [addManyK]
+    rw [hstep]
+    refine ⟨a1 ++ a2, _, hg.trans hg', ?_, by rw [hc', hc, List.append_assoc], fun hs => hn' (hn hs), hm'.trans hm⟩
+    intro e he
+    rcases List.mem_append.mp he with he | he
+    · exact compEntries_layer _ e (hp.subset he)
+    · exact hl e he
+
+theorem addManyK_append (s : Sim) (a b : List (List Tree × Fault)) :
+    addManyK s (a ++ b) = addManyK (addManyK s a) b := by simp [addManyK]
+
+/-! ### A `setup` that raises -/
+
+/-- every `.setupComponents` of the action list is preceded by a `.set` (the lifecycle has left `initialization`) -/
+def startedFirst : Bool → List Act → Bool
+  | _, [] => true
+  | st, a :: r =>
+    match a with
+    | .set _ => startedFirst true r
+    | .setupComponents => st && startedFirst st r
+    | _ => startedFirst st r
+
+theorem takeWhile_boom_prefix (boom : String) : ∀ all : List String, all.contains boom = true →
+    all.takeWhile (· != boom) ++ [boom] <+: all
+  | [], h => by simp at h
+  | a :: all, h => by
+    by_cases ha : a = boom
+    · subst ha; simp [List.takeWhile]
+    · have h' : all.contains boom = true := by
+        simp only [List.contains_cons, Bool.or_eq_true, beq_iff_eq] at h
+        rcases h with h | h
+        · exact absurd h.symm ha
+        · exact h
+      have := takeWhile_boom_prefix boom all h'
+      have hne : (a != boom) = true := by simpa using ha
+      have hcons : List.takeWhile (fun x => x != boom) (a :: all) = a :: List.takeWhile (fun x => x != boom) all :=
+        List.takeWhile_cons_of_pos (p := fun x => x != boom) hne
+      rw [hcons, List.cons_append]
+      exact (List.cons_prefix_cons).mpr ⟨rfl, this⟩
+
+/-- `_setup_components` when one `setup` raises: a prefix of the objects (each once) has been set up, nothing else has
+changed, and with a frozen configuration nothing was written -/
+theorem setupComponentsK_spec (sc : Script) (boom : String) (s : Sim) :
+    ∃ names, Steps s (setupComponentsK sc boom s).1 names ∧ names <+: (s.managers ++ s.components) ∧ names.Nodup ∧
+      (s.cfg.frozen = true → Quiet sc s (setupComponentsK sc boom s).1) := by
+  unfold setupComponentsK
+  cases ha : OrderedSet.addAll [] (s.managers ++ s.components) with
+  | error e => exact ⟨[], Steps.refl s, List.nil_prefix, List.nodup_nil, fun _ => Quiet.refl sc s⟩
+  | ok all =>
+    obtain ⟨he, hn⟩ := addAll_ok _ _ _ ha
+    simp only [List.nil_append] at he
+    subst he
+    have hnd := hn List.nodup_nil
+    by_cases hb : (s.managers ++ s.components).contains boom = true
+    · simp only [hb, if_true]
+      have hp := takeWhile_boom_prefix boom _ hb
+      exact ⟨_, foldl_setupOne_steps sc _ s, hp, hnd.sublist hp.sublist, fun hf => foldl_setupOne_frozen sc _ s hf⟩
+    · simp only [hb]
+      exact ⟨_, foldl_setupOne_steps sc _ s, List.prefix_refl _, hnd, fun hf => foldl_setupOne_frozen sc _ s hf⟩
+
+theorem setupComponentsK_agree (sc : Script) (boom : String) (s : Sim)
+    (hb : (s.managers ++ s.components).contains boom = false) :
+    setupComponents sc s = match setupComponentsK sc boom s with
+      | (s', none) => .ok s'
+      | (_, some e) => .error e := by
+  unfold setupComponents setupComponentsK
+  cases ha : OrderedSet.addAll [] (s.managers ++ s.components) with
+  | error e => simp [bind, Except.bind]
+  | ok all =>
+    obtain ⟨he, _⟩ := addAll_ok _ _ _ ha
+    simp only [List.nil_append] at he
+    subst he
+    simp only [bind, Except.bind, pure, Except.pure, hb, Bool.false_eq_true, if_false]
+
+/-- the body of `setup()` left at the statement that raises: nothing is written (the configuration was frozen before
+any object was set up), the two sets are untouched, at most a prefix of the objects has been set up, each once; and
+when something did raise, the configuration IS frozen and the lifecycle HAS left `initialization` -/
+theorem runActsK_spec (sc : Script) (boom : String) : ∀ (acts : List Act) (s : Sim),
+    frozenFirst s.cfg.frozen acts = true → startedFirst s.started acts = true →
+    ∃ names, Quiet sc s (runActsK sc boom acts s).1 ∧
+      (runActsK sc boom acts s).1.managers = s.managers ∧ (runActsK sc boom acts s).1.components = s.components ∧
+      (runActsK sc boom acts s).1.log = s.log ++ names ∧
+      (nSetup acts = 0 → names = []) ∧
+      (nSetup acts ≤ 1 → names <+: (s.managers ++ s.components) ∧ names.Nodup) ∧
+      ((runActsK sc boom acts s).2 ≠ none →
+        (runActsK sc boom acts s).1.cfg.frozen = true ∧ (runActsK sc boom acts s).1.started = true)
+  | [], s, _, _ => ⟨[], Quiet.refl sc s, rfl, rfl, by simp [runActsK], fun _ => rfl,
+      fun _ => ⟨List.nil_prefix, List.nodup_nil⟩, by simp [runActsK]⟩
+  | a :: r, s, hff, hsf => by
+    cases a with
+    | freeze =>
+      obtain ⟨names, q, hm, hc, hl, h0, h1, he⟩ := runActsK_spec sc boom r { s with cfg := s.cfg.freeze }
+        (by simpa [frozenFirst, Config.freeze] using hff) (by simpa [startedFirst] using hsf)
+      have q0 : Quiet sc s { s with cfg := s.cfg.freeze } := ⟨rfl, ⟨[], by simp⟩, ⟨[], by simp⟩⟩
+      exact ⟨names, by simpa [runActsK, actK] using q0.trans q, by simpa [runActsK, actK] using hm,
+        by simpa [runActsK, actK] using hc, by simpa [runActsK, actK] using hl, by simpa [nSetup] using h0,
+        by simpa [nSetup] using h1, by simpa [runActsK, actK] using he⟩
+    | set x =>
+      obtain ⟨names, q, hm, hc, hl, h0, h1, he⟩ := runActsK_spec sc boom r { s with started := true }
+        (by simpa [frozenFirst] using hff) (by simpa [startedFirst] using hsf)
+      have q0 : Quiet sc s { s with started := true } := ⟨rfl, ⟨[], by simp⟩, ⟨[], by simp⟩⟩
+      exact ⟨names, by simpa [runActsK, actK] using q0.trans q, by simpa [runActsK, actK] using hm,
+        by simpa [runActsK, actK] using hc, by simpa [runActsK, actK] using hl, by simpa [nSetup] using h0,
+        by simpa [nSetup] using h1, by simpa [runActsK, actK] using he⟩
+    | setupComponents =>
+      simp only [frozenFirst, Bool.and_eq_true] at hff
+      simp only [startedFirst, Bool.and_eq_true] at hsf
+      obtain ⟨n1, st, hp, hnd, hq⟩ := setupComponentsK_spec sc boom s
+      rcases h : setupComponentsK sc boom s with ⟨s1, _ | e⟩
+      · rw [h] at st hq
+        simp only at st hq
+        obtain ⟨names, q, hm, hc, hl, h0, h1, he⟩ := runActsK_spec sc boom r s1
+          (by rw [st.frozen]; exact hff.2) (by rw [st.started]; exact hsf.2)
+        have hstep : runActsK sc boom (Act.setupComponents :: r) s = runActsK sc boom r s1 := by
+          simp [runActsK, actK, h]
+        rw [hstep]
+        refine ⟨n1 ++ names, (hq hff.1).trans q, hm.trans st.managers, hc.trans st.components,
+          by rw [hl, st.log, List.append_assoc], by simp [nSetup], ?_, he⟩
+        intro hle
+        have hr0 : nSetup r = 0 := by simp only [nSetup] at hle; omega
+        rw [h0 hr0, List.append_nil]
+        exact ⟨hp, hnd⟩
+      · rw [h] at st hq
+        simp only at st hq
+        have hstep : runActsK sc boom (Act.setupComponents :: r) s = (s1, some e) := by
+          simp [runActsK, actK, h]
+        rw [hstep]
+        exact ⟨n1, hq hff.1, st.managers, st.components, st.log, by simp [nSetup], fun _ => ⟨hp, hnd⟩,
+          fun _ => ⟨by rw [st.frozen]; exact hff.1, by rw [st.started]; exact hsf.1⟩⟩
+    | _ =>
+      obtain ⟨names, q, hm, hc, hl, h0, h1, he⟩ := runActsK_spec sc boom r s
+        (by simpa [frozenFirst] using hff) (by simpa [startedFirst] using hsf)
+      exact ⟨names, by simpa [runActsK, actK] using q, by simpa [runActsK, actK] using hm,
+        by simpa [runActsK, actK] using hc, by simpa [runActsK, actK] using hl, by simpa [nSetup] using h0,
+        by simpa [nSetup] using h1, by simpa [runActsK, actK] using he⟩
+
+/-- when the object that would raise is not registered, `setupK` is `setup` -/
+theorem runActsK_agree (sc : Script) (boom : String) : ∀ (acts : List Act) (s : Sim),
+    (s.managers ++ s.components).contains boom = false →
+    runActs sc acts s = match runActsK sc boom acts s with
+      | (s', none) => .ok s'
+      | (_, some e) => .error e
+  | [], s, _ => by simp [runActs, runActsK, pure, Except.pure]
+  | a :: r, s, hb => by
+    unfold runActs
+    rw [List.foldlM_cons]
+    cases a with
+    | freeze =>
+      simp only [act, runActsK, actK, bind, Except.bind]
+      exact runActsK_agree sc boom r _ hb
+    | set x =>
+      simp only [act, runActsK, actK, bind, Except.bind]
+      exact runActsK_agree sc boom r _ hb
+    | setupComponents =>
+      simp only [act, runActsK, actK]
+      rw [setupComponentsK_agree sc boom s hb]
+      obtain ⟨n1, st, _, _, _⟩ := setupComponentsK_spec sc boom s
+      rcases h : setupComponentsK sc boom s with ⟨s1, _ | e⟩
+      · rw [h] at st
+        simp only [bind, Except.bind]
+        exact runActsK_agree sc boom r s1 (by rw [st.managers, st.components]; exact hb)
+      · simp [bind, Except.bind]
+    | _ =>
+      simp only [act, runActsK, actK, bind, Except.bind]
+      exact runActsK_agree sc boom r _ hb
+
 end Viv.Components
